@@ -203,25 +203,6 @@ def run(repo, rep):
                       nontrivial=True)
     rep.floor('C08.b:numbers', n, 8)
 
-    # ---------------------------------------------------------------- C08.a syntactic cross-check
-    n = 0
-    for key in ('list', 'dict', 'str', 'float', 'int', 'bool', 'frozenset'):
-        fn = S.printer_for(repo, key)
-        value = fn.params[0]
-        tv = [src(s.targets[0]) for s in ast.walk(fn.node) if isinstance(s, ast.Assign) and src(s.value) == 'type(%s)' % value]
-        n += 1
-        rep.check(bool(tv), 'C08.a', '%s:constructor-is-type-of-value' % fn.name, fn.where, 'constructor = type(value)',
-                  '%s no longer takes the constructor from type(%s)' % (fn.name, value), nontrivial=True)
-        for s in ast.walk(fn.node):
-            if isinstance(s, ast.Assign) and isinstance(s.targets[0], ast.Name) and 'native' in s.targets[0].id:
-                n += 1
-                uses_isinstance = any(isinstance(c, ast.Call) and call_name(c) in ('isinstance', 'issubclass') for c in ast.walk(s.value))
-                rep.check(not uses_isinstance and bool(names_in(s.value) & set(tv)), 'C08.a', '%s:nativeness-by-identity' % fn.name,
-                          '%s:%d' % (fn.module.relpath, s.lineno), 'nativeness decided by identity of type(value)',
-                          '%s computes %s = %s: an isinstance-based flag treats every subclass as native and silently drops its class'
-                          % (fn.name, s.targets[0].id, src(s.value)), nontrivial=True)
-    rep.floor('C08.a', n, 9)
-
     # ---------------------------------------------------------------- C08.c
     n = 0
     targets = [S.printer_for(repo, k) for k in ('int', 'float', 'str')]
